@@ -27,15 +27,20 @@ impl C05 {
     fn check(&self, cx: &mut Cx, lib: &LefLibrary, via_save: bool, src: &str) {
         cx.eval();
         let path = cx.tmp("out.lef");
-        let stale = cx.n % 2 == 0;
-        if via_save && stale {
-            cx.count("saved_over_existing_longer_file");
+        // history dimension: 0 fresh path, 1 over a much longer file, 2 over a different file of exactly the same length
+        let stale = cx.n % 3;
+        if via_save && stale > 0 {
+            cx.count(if stale == 1 { "saved_over_existing_longer_file" } else { "saved_over_existing_same_length_file" });
         }
         let written = guard(|| -> Result<String, lef21::LefError> {
             if via_save {
                 // history dimension: every other case saves over an existing, much longer file
-                if stale {
+                if stale == 1 {
                     let _ = std::fs::write(&path, "# older copy\nMACRO old\n  SIZE 1 BY 1 ;\nEND old\n".repeat(2000));
+                } else if stale == 2 {
+                    if let Ok(t) = lib.to_string() {
+                        let _ = std::fs::write(&path, "#".repeat(t.len()));
+                    }
                 }
                 lib.save(&path)?;
                 Ok(std::fs::read_to_string(&path).unwrap_or_default())
